@@ -425,7 +425,7 @@ Proof.
   intros NI ND TK HY HYk Hd HS H.
   assert (HF : find_node (t_id Y) t = Some Y) by (apply find_node_unique; auto).
   assert (EU : equivU t t').
-  { eapply reseed_at_equivU; eauto; [exists Y; split; assumption | cbn; discriminate]. }
+  { eapply reseed_at_equivU; eauto. exists Y; split; assumption. }
   split; [assumption|].
   unfold reseed_at in H. apply bind_ok in H. destruct H as [t1 [H1 Hp]]. apply ok_inj in Hp. rename Hp into Hp'.
   destruct (t_id t =? t_id Y) eqn:E.
@@ -472,7 +472,7 @@ Proof.
   assert (ND1 : NoDup (leaf_taxa t1)) by (eapply equivU_nodup; [apply equivT_U; exact E1 | assumption]).
   assert (EU : equivU t t').
   { eapply equivU_trans; [apply equivT_U; exact E1|].
-    eapply reseed_at_equivU; eauto. cbn; discriminate. }
+    eapply reseed_at_equivU; eauto. }
   split; [assumption|].
   assert (Hfr : t_id t1 <> fresh).
   { rewrite Hid. intro C. apply FR. unfold ids. rewrite preorder_below. left. assumption. }
